@@ -1764,7 +1764,7 @@ class Canon(ast.NodeTransformer):
                 gen = ast.GeneratorExp(elt=ast.Compare(left=L.elt, ops=[ast.Eq()], comparators=[K]), generators=L.generators)
                 return ast.copy_location(ast.Call(func=ast.Name(id="all", ctx=ast.Load()), args=[gen], keywords=[]), node)
         # (A if c else B) op K  ==>  (A op K) if c else (B op K)      (K a literal; c pure)
-        if len(node.ops) == 1 and isinstance(node.ops[0], (ast.Eq, ast.NotEq)) and isinstance(node.left, ast.IfExp) and (_lit(node.comparators[0]) or _pure_expr(node.comparators[0])) \
+        if len(node.ops) == 1 and isinstance(node.ops[0], (ast.Eq, ast.NotEq)) and isinstance(node.left, ast.IfExp) and _lit(node.comparators[0]) \
                 and _pure_expr(node.left.test) and _pure_expr(node.left.body) and _pure_expr(node.left.orelse):
             ie = node.left
             mk = lambda v: self.visit_Compare(ast.copy_location(ast.Compare(left=v, ops=[copy.deepcopy(node.ops[0])], comparators=[copy.deepcopy(node.comparators[0])]), node))
@@ -2618,8 +2618,9 @@ def normalise_functions(tree, _depth=0):
             ast.fix_missing_locations(node)
     AppendLoops().visit(tree)
     Canon().visit(tree)
-    from .normalize2 import WhileToFor
+    from .normalize2 import WhileToFor, transpose_views
     WhileToFor().run(tree)      # counters whose initialisation was part of a tuple assignment until Canon split it
+    transpose_views(tree)
     n = 0
     for node in ast.walk(tree):
         if isinstance(node, ast.FunctionDef):
@@ -2632,6 +2633,7 @@ def normalise_functions(tree, _depth=0):
     from .normalize2 import Desugar
     ast.fix_missing_locations(tree)
     before = ast.dump(tree)
+    transpose_views(tree)   # `v = X.T` has been propagated into `v[i, j]` by now
     Desugar().visit(tree)   # forms that only appear once values have been propagated: partial(f, a)(b), attrgetter("x")(e), ...
     Canon().visit(tree)
     if _depth < 2 and ast.dump(tree) != before:
